@@ -10,6 +10,8 @@ CONSTANTS
   RejectDelta = 4
   MaxHeight = 2
   MaxNow = 1
+  Margins = {0, 1}
+  ExpiredOffs = {1}
   KeysendQuirk = TRUE
   MaxEvents = 4
 VIEW FullView
